@@ -130,6 +130,25 @@ CLAIMED.update({
     ),
 })
 
+CLAIMED.update({
+    'C20': (
+        'proxy symbolic execution (bvx/z3 integers) of the ticket instructions and TicketType from an arbitrary valid ticket state',
+        'Bounded symbolic model checking, one step from any valid state: amounts are unbounded symbolic naturals, contents symbolic; TICKET, '
+        'SPLIT_TICKET (+JOIN of the parts), JOIN_TICKETS, READ_TICKET and DUP/DUP n on nine ticket-bearing value shapes; None/Some conditions, '
+        'amounts, result types and conservation (JOIN(SPLIT t) = t) are discharged on every path.',
+        'Invariant: existing tickets have positive amounts; context stub provides the self address.',
+        'DESIGN.md C20',
+    ),
+    'C11': (
+        'proxy symbolic execution (bvx/z3) of to_micheline_value/from_micheline_value of the type classes in three modes against a reference rendering; time library behind a measured contract stub',
+        'Bounded symbolic model checking: symbolic values of a catalogue of type shapes (combs up to 5/7 leaves) are rendered in readable, '
+        'optimized and legacy-optimized mode, compared with a reference rendering and parsed back; every integer timestamp is decided through a '
+        'contract of datetime/strict_rfc3339 whose boundaries are measured from the real functions on every run; base58-rendered leaves with symbolic payloads.',
+        'ints unbounded, strings/bytes <= 2-3, collections <= 2-3; time contract validated at its boundaries; big_map/lambda/ticket excluded.',
+        'DESIGN.md C11',
+    ),
+})
+
 NOT_APPLICABLE = {
     'C18': 'Parser is a PLY regex lexer + LALR tables + json; every input is concrete before the code under test runs, '
            'so a solver has nothing to decide (CrossHair regex model also unsound here). See DESIGN.md section 6.',
